@@ -115,12 +115,20 @@ pub fn delivery_class(tree: &Tree, order: &[Delivery]) -> String {
                 }
                 seen[*i] = true;
             }
-            Delivery::Duplicate(_) => {
+            Delivery::Duplicate(i) => {
+                if !seen[tree.parents[*i - 1]] {
+                    parent_first = false;
+                }
+                // an early "duplicate" is simply the first delivery of that block
+                seen[*i] = true;
                 if !extras.contains(&"dup") {
                     extras.push("dup")
                 }
             }
-            Delivery::BadSignature(_) => {
+            Delivery::BadSignature(i) => {
+                if !seen[tree.parents[*i - 1]] {
+                    parent_first = false;
+                }
                 if !extras.contains(&"badsig") {
                     extras.push("badsig")
                 }
@@ -153,8 +161,25 @@ pub async fn run_case(b: &mut Builder, tree: &Tree, order: &[Delivery], params: 
     let mut out = Outcome { tip_changes: 0, reorg_depth_max: 0 };
     let mut results = vec![];
     rep.eval();
+    // set once a block whose parent the node does not hold has been processed under the
+    // realistic configuration (initial_loading_completed = false): the 'out-of-order' branch of
+    // add_block then rewrites the longest-chain index (one root cause, many symptoms)
+    let mut tainted = false;
     for (step, d) in order.iter().enumerate() {
         let (before_id, before_hash) = node.tip().await;
+        {
+            let idx = match d {
+                Delivery::Block(i) | Delivery::Duplicate(i) | Delivery::BadSignature(i) => *i,
+            };
+            let parent_hash = tree.hashes[tree.parents[idx - 1]];
+            let held = node.chain.read().await.blocks.contains_key(&parent_hash);
+            if !held && !params.loading_completed {
+                if !tainted {
+                    rep.count("cases_with_parentless_delivery");
+                }
+                tainted = true;
+            }
+        }
         let bytes = match d {
             Delivery::Block(i) | Delivery::Duplicate(i) => b.store.get(&tree.hashes[*i]).bytes.clone(),
             Delivery::BadSignature(i) => {
@@ -243,8 +268,13 @@ pub async fn run_case(b: &mut Builder, tree: &Tree, order: &[Delivery], params: 
         rep.count("consistency_checks");
         if !findings.is_empty() {
             for f in findings {
+                let sig = if tainted {
+                    format!("{}|clause=state-damaged-after-parentless-block", prop)
+                } else {
+                    format!("{}|clause={}|delivery={}", prop, f.clause, class)
+                };
                 rep.violation(
-                    &format!("{}|clause={}|delivery={}", prop, f.clause, class),
+                    &sig,
                     &format!("after delivery #{} of [{}] (results {:?}): {}", step, describe(order), results, f.detail),
                     replay_json(b, tree, order, params, step),
                 );
@@ -271,7 +301,7 @@ fn replay_json(b: &Builder, tree: &Tree, order: &[Delivery], params: &Params, st
 pub async fn run(ctx: &Ctx, rep: &mut Report) {
     let mut rng = ctx.rng();
     let n_actors = 4;
-    let max_n = ctx.scale(4, 5) as usize;
+    let max_n = ctx.scale(5, 6) as usize;
     let mut work = 0u64;
     rep.exhaustive = true;
     for loaded in [false, true] {
@@ -325,7 +355,7 @@ pub async fn run(ctx: &Ctx, rep: &mut Report) {
         }
     }
     // random: longer trees, back-and-forth reorgs between two growing forks
-    let rounds = ctx.scale(40, 1200) / ctx.shards.max(1);
+    let rounds = ctx.scale(400, 4000) / ctx.shards.max(1);
     for r in 0..rounds {
         let mut params = Params::with_gp(if r % 3 == 0 { 6 } else { 20 });
         params.loading_completed = r % 2 == 0;
